@@ -1,4 +1,4 @@
-import B6.Lemmas.CompactIndexEachSound
+import B6.Lemmas.CompactIndexNodup
 /-!
 # C01 — the compact index round-trips every feature it accepts
 
@@ -27,10 +27,14 @@ What is proved, for ALL strings tables, namespace tables, ids (every 64-bit valu
 * `each_enumerates_every_feature`, `each_enumerates_only_features`: the set of ids `EachFeature` reports is the
   set of ids of the source.
 
-What is not proved and stays visible as a statement: the other conjuncts of `compact_roundtrip_statement` —
-that `Accepts` implies the build succeeds, and that `each` reports no id twice.  It is carried by
-the correspondence run, which compares every block byte for byte and every `find` / `each` answer, and by a
-kernel-checked concrete index (`exRoundTrips`).
+* **`compact_roundtrip : compact_roundtrip_statement`** — the whole property for the model: on every source in
+  `Accepts` the build does not panic (`build_never_panics`), every feature is found in canonical form, and
+  `each` is a duplicate free permutation of the ids (`each_no_id_twice`, `each_is_permutation`).  `Accepts`
+  excludes the three recorded finding classes explicitly (`accepts_excludes_findings`); on a witness of each
+  class the model build fails (`finding_classes_fail`), as the real build does.
+
+Nothing of `compact_roundtrip_statement` is left unproved for the model; the tie to the Go code remains the
+correspondence run (every block byte for byte, every `find` / `each` answer) plus the oracle assumptions (S2).
 
 Counterexamples (the code before the repairs, and the recorded finding): `mixed_path_nil_counterexample`,
 `relation_relations_primary_counterexample`, `fid_tag_value_counterexample`.
@@ -237,19 +241,59 @@ def exRoundTrips : Bool :=
   | .error _ => false
 example : exRoundTrips = true := by decide +kernel
 
-/-! ## statements carried by the correspondence run (NOT proved) -/
+/-! ## the property -/
 
 /-- **the property**: on every accepted feature set the build succeeds, every feature is found by its id as
-its canonical form, and `each` enumerates every id exactly once.  `compact_find_roundtrip` proves the middle
-conjunct under the hypothesis that the build succeeded; NOT proved: that `Accepts` implies the build succeeds
-(no `Lookup` / `Encode` / `EncodeValueType` / "No builder" panic), and of the two `each` conjuncts only that the
-enumerated *set* is the set of source ids (`each_enumerates_every_feature`, `each_enumerates_only_features`), not
-that no id is reported twice. -/
+its canonical form, and `each` enumerates every id exactly once. -/
 def compact_roundtrip_statement : Prop :=
   ∀ (strs : List Str) (fs : List Feature), Accepts strs fs = true →
     ∃ ix, build strs fs = .ok ix ∧
       (∀ f ∈ fs, find ix f.id = some (some (canon fs f))) ∧
       (each ix).Perm (fs.map (·.id)) ∧ (each ix).Nodup
+
+/-- **"Building never crashes on valid input"** (for the model: no `Lookup` / `Encode` / `EncodeValueType` /
+"Can't encode role" / type-assertion / "No builder" panic): every source in `Accepts` builds. -/
+theorem build_never_panics (strs : List Str) (fs : List Feature) (hacc : Accepts strs fs = true) :
+    ∃ ix, build strs fs = .ok ix :=
+  build_ok strs fs hacc
+
+/-- `Accepts` and the three recorded finding classes are disjoint: together with `build_never_panics` the inputs
+split into accepted (builds, round-trips), known findings (the real build dies), and out of domain. -/
+theorem accepts_excludes_findings (strs : List Str) (fs : List Feature) (hacc : Accepts strs fs = true) :
+    hasFidTag fs = false ∧ hasPointMemberWithoutBlock fs = false ∧ hasListTagOnNonPath fs = false := by
+  simp only [Accepts, Bool.and_eq_true, Bool.not_eq_true'] at hacc
+  exact ⟨hacc.1.1.1.1.1.1.2, hacc.1.2, hacc.2⟩
+
+/-- `EachFeature` reports no id twice (distinct source ids; build succeeded). -/
+theorem each_no_id_twice (strs : List Str) (fs : List Feature) (ix : Index) (hbuild : build strs fs = .ok ix)
+    (hd : idsDistinct fs = true) (hsmall : (nsTable fs).length ≤ 8192) : (each ix).Nodup :=
+  each_nodup strs fs ix hbuild hd hsmall
+
+/-- `EachFeature` is a duplicate free permutation of the ids of the source. -/
+theorem each_is_permutation (strs : List Str) (fs : List Feature) (ix : Index) (hbuild : build strs fs = .ok ix)
+    (hacc : Accepts strs fs = true) : (each ix).Perm (fs.map (·.id)) ∧ (each ix).Nodup :=
+  each_perm strs fs ix hbuild hacc
+
+/-- **the whole property, for the model** -/
+theorem compact_roundtrip : compact_roundtrip_statement := by
+  intro strs fs hacc
+  obtain ⟨ix, hix⟩ := build_ok strs fs hacc
+  have ⟨hp, hn⟩ := each_perm strs fs ix hix hacc
+  exact ⟨ix, hix, compact_find_roundtrip strs fs ix hix hacc, hp, hn⟩
+
+/-- non-vacuity of the exclusions: a witness of each finding class, and what the model build does with it -/
+def exFid : List Feature := [exPoint 1 p1, { id := ⟨0, nsOsmNode, 9⟩, tags := [⟨sName, .fid ⟨0, nsOsmNode, 1⟩⟩, ⟨kPoint, .pt p2⟩] }]
+def exMember : List Feature := [exPoint 1 p1, { id := ⟨3, nsOsmRel, 5⟩, members := [⟨[], ⟨0, nsCustom, 9⟩⟩] }]
+def exListTag : List Feature := [exPoint 1 p1, { id := ⟨0, nsOsmNode, 8⟩, tags := [⟨sName, .list [.ll p3]⟩, ⟨kPoint, .pt p2⟩] }]
+def buildError (strs : List Str) (fs : List Feature) : Option BuildError :=
+  match build strs fs with
+  | .error e => some e
+  | .ok _ => none
+theorem finding_classes_fail :
+    hasFidTag exFid = true ∧ buildError exStrs exFid = some .fidTag ∧
+    hasPointMemberWithoutBlock exMember = true ∧ buildError exStrs exMember = some (.panic "No builder for type point") ∧
+    hasListTagOnNonPath exListTag = true ∧ buildError exStrs exListTag = some (.panic "point tags") := by
+  decide +kernel
 
 /-! ## writer and reader primaries -/
 
